@@ -54,7 +54,7 @@ theorem reselect_error_heights (r1 r2 : Repo) (o : StepOut) (h : reselect r1 = .
 inductive Shape (r : Repo) (h : Hdr) (ok : Bool) (r' : Repo) : Prop
   | same (ha : r'.arena = r.arena) (hb : r'.branches = r.branches) (hh : r'.heights = r.heights)
   | fork (pb : Nat) (ph : Int) (lst : HData) (nb : Branch) (hp : Passed r h ok pb ph lst)
-      (hn : newBranch r (some pb) ph h = .ok nb)
+      (hne : lst.hdr.id ≠ h.prev) (hn : newBranch r (some pb) ph h = .ok nb)
       (ha : r'.arena = r.arena ++ [nb]) (hb : r'.branches = r.branches ++ [r.arena.length])
       (hh : r'.heights = r.heights.set h.id (ph + 1))
   | extend (pb : Nat) (ph : Int) (lst : HData) (w : Nat) (hp : Passed r h ok pb ph lst)
@@ -65,7 +65,7 @@ inductive Shape (r : Repo) (h : Hdr) (ok : Bool) (r' : Repo) : Prop
       (hb : r'.branches = r.branches) (hh : r'.heights = r.heights.set h.id (ph + 1))
 
 theorem forkHeader_shape (r : Repo) (h : Hdr) (ok : Bool) (pb : Nat) (ph : Int) (lst : HData)
-    (hp : Passed r h ok pb ph lst) : Shape r h ok (forkHeader r h pb ph).1 := by
+    (hp : Passed r h ok pb ph lst) (hne : lst.hdr.id ≠ h.prev) : Shape r h ok (forkHeader r h pb ph).1 := by
   unfold forkHeader
   cases hn : newBranch r (some pb) ph h with
   | error v => exact .same rfl rfl rfl
@@ -75,11 +75,11 @@ theorem forkHeader_shape (r : Repo) (h : Hdr) (ok : Bool) (pb : Nat) (ph : Int) 
     cases res with
     | error x =>
       obtain ⟨r2, o⟩ := x
-      exact .fork pb ph lst nb hp hn (by simp only; rw [reselect_error_arena _ _ _ hr])
+      exact .fork pb ph lst nb hp hne hn (by simp only; rw [reselect_error_arena _ _ _ hr])
         (by simp only; rw [reselect_error_branches _ _ _ hr]) (by simp only; rw [reselect_error_heights _ _ _ hr])
     | ok y =>
       obtain ⟨r2, s, evs⟩ := y
-      exact .fork pb ph lst nb hp hn (by simp only; rw [reselect_ok_arena _ _ _ _ hr])
+      exact .fork pb ph lst nb hp hne hn (by simp only; rw [reselect_ok_arena _ _ _ _ hr])
         (by simp only; rw [reselect_ok_branches _ _ _ _ hr]) (by simp only; rw [reselect_ok_heights _ _ _ _ hr])
 
 theorem extendHeader_shape (r : Repo) (h : Hdr) (ok : Bool) (pb : Nat) (ph : Int) (lst : HData)
@@ -158,7 +158,7 @@ theorem processHeader_shape (r : Repo) (h : Hdr) (ok : Bool)
     unfold applyHeader
     by_cases hf : lst.hdr.id ≠ h.prev
     · simp only [hf, ne_eq, not_false_eq_true, ↓reduceIte]
-      exact forkHeader_shape r h ok pb ph lst hpass
+      exact forkHeader_shape r h ok pb ph lst hpass hf
     · simp only [hf, ↓reduceIte]
       exact extendHeader_shape r h ok pb ph lst hpass (by simpa using hf) (hnc pb ph lst hpc)
 
